@@ -756,6 +756,79 @@ def oracle_case(tn, rng, n, r1, r2, Y1, Y2):
     return None
 
 
+def oracle_forms(tn, rng, n, r1, Y1):
+    """argument forms: number operands of every magnitude (incl. |c| <= 1e-16, where const takes its special branch), cores of
+    mixed dtype (an int64 core next to float cores with fractional dyadic entries), index arguments as list / int64 / int32
+    arrays / tuples.  Exact: entries are multiples of 1/8, so every value is a dyadic rational that floats represent exactly."""
+    from fractions import Fraction
+    d = len(n)
+    j = rng.randrange(d)
+    Yi = [np.array(G, dtype=np.int64) if k == j else np.array(G, dtype=float) / 8.0 for k, G in enumerate(Y1)]
+    Dq = dense_int(Y1).astype(object)            # numerators: entry = Dq / 8^(d-1)
+    sc = Fraction(1, 8 ** (d - 1))
+    inp = dict(family='argument forms', n=n, r1=r1, int_core=j, Y1=[G.tolist() for G in Y1])
+
+    def bad(name, got, exp, extra=None):
+        got = np.asarray(got, dtype=float)
+        expf = np.array([float(x) for x in np.asarray(exp, dtype=object).reshape(-1)]).reshape(np.shape(exp))
+        if got.shape != expf.shape or not np.array_equal(got, expf):
+            return dict(what=f'{name} differs from the exact reference (mixed-dtype cores / argument forms)', function=name,
+                        input=dict(inp, extra=extra), got=got.tolist() if got.size < 100 else 'large',
+                        expected=expf.tolist() if expf.size < 100 else 'large')
+        return None
+    idx = [rng.randrange(k) for k in n]
+    ex_idx = Dq[tuple(idx)] * sc
+    for form, ii in [('list', list(idx)), ('int64', np.array(idx, dtype=np.int64)), ('int32', np.array(idx, dtype=np.int32)),
+                     ('tuple', tuple(idx))]:
+        try:
+            f = bad(f'get(index as {form})', tn.get(Yi, ii), np.array(ex_idx, dtype=object))
+        except Exception as e:
+            f = dict(what=f'get(index as {form}) raised {e!r}'[:300], input=inp)
+        if f:
+            return f
+    try:
+        f = bad('full', tn.full(Yi), Dq * sc) or bad('sum', tn.sum(Yi), np.array(Dq.sum() * sc, dtype=object))
+        if f:
+            return f
+        v, g = tn.get_and_grad(Yi, np.array(idx))
+        f = bad('get_and_grad value', v, np.array(ex_idx, dtype=object))
+        if f:
+            return f
+        # gradient wrt core k at slice idx[k]: left interface x right interface (exact, from multilinearity)
+        for k in range(d):
+            L = np.ones((1, 1), dtype=object)
+            for t in range(k):
+                L = L.dot(np.array(Y1[t], dtype=object)[:, idx[t], :] if True else None)
+            Rr = np.ones((1, 1), dtype=object)
+            for t in range(d - 1, k, -1):
+                Rr = np.array(Y1[t], dtype=object)[:, idx[t], :].dot(Rr)
+            nfl = sum(1 for t in range(d) if t != k and t != j)       # float cores among the others
+            exg = np.zeros(np.shape(Y1[k]), dtype=object)
+            exg[:, idx[k], :] = np.outer(L.reshape(-1), Rr.reshape(-1)) * Fraction(1, 8 ** nfl)
+            f = bad(f'get_and_grad gradient of core {k}', g[k], exg)
+            if f:
+                return f
+    except Exception as e:
+        return dict(what=f'evaluation of a tensor with mixed-dtype cores raised {e!r}'[:300], input=inp)
+    # number operands on either side, every magnitude
+    Yf = [np.array(G, dtype=float) for G in Y1]
+    D = dense_int(Y1).astype(float)
+    mx = max(1.0, float(np.abs(D).max()))
+    for c in [0.0, 1.0, -2.5, 3, np.float64(0.5), 1e-17, -7e-20, 5e-300, 2.5e-17, 1e-16, -1e-16, 1.0000001e-16, -1e-15]:
+        for name, fn, ref in [('add(Y, c)', lambda: tn.add(Yf, c), D + float(c)), ('add(c, Y)', lambda: tn.add(c, Yf), D + float(c)),
+                              ('sub(Y, c)', lambda: tn.sub(Yf, c), D - float(c)), ('sub(c, Y)', lambda: tn.sub(c, Yf), float(c) - D),
+                              ('mul(Y, c)', lambda: tn.mul(Yf, c), D * float(c)), ('mul(c, Y)', lambda: tn.mul(c, Yf), D * float(c))]:
+            try:
+                got = np.asarray(tn.full(fn()), dtype=float)
+                tol = 1e-12 * mx * max(1.0, abs(float(c))) if 'mul' not in name else 1e-12 * mx * abs(float(c)) + 1e-320
+                if got.shape != ref.shape or not np.all(np.abs(got - ref) <= tol):
+                    return dict(what=f'{name} with the number c = {float(c)!r} differs from the dense reference', function=name,
+                                input=dict(inp, c=float(c)), got=got.reshape(-1)[:8].tolist(), expected=ref.reshape(-1)[:8].tolist())
+            except Exception as e:
+                return dict(what=f'{name} with the number c = {float(c)!r} raised {e!r}'[:300], input=dict(inp, c=float(c)))
+    return None
+
+
 def search(R, ctx, deep, hints):
     tn = C.import_teneva()
     rng = ctx['rng']
@@ -789,6 +862,16 @@ def search(R, ctx, deep, hints):
             fails.append(f)
             if len(fails) >= 3:
                 break
+    # argument forms (dtype of cores, form of indices, magnitude / type of number operands)
+    for n, r1, r2, Y1, Y2 in cases[:(60 if deep else 12)]:
+        if len(fails) >= 3:
+            break
+        if int(np.prod(n)) > 200:
+            continue
+        n_eval += 1
+        f = oracle_forms(tn, rng, n, r1, Y1)
+        if f:
+            fails.append(f)
     # expression trees against dense integer evaluation
     for _ in range(60 if deep else 15):
         d = rng.choice([2, 3])
@@ -858,6 +941,10 @@ def replay(data):
         Y2 = [np.array(G, dtype=float) for G in inp['Y2']]
         f = oracle_case(tn, C.Rng(0), inp['n'], inp['r1'], inp['r2'], Y1, Y2)
         print('replayed:', f)
+        return 1 if f else 0
+    if inp.get('family') == 'argument forms':
+        f = oracle_forms(tn, C.Rng(0), inp['n'], inp['r1'], [np.array(G, dtype=float) for G in inp['Y1']])
+        print('replayed:', f and f['what'])
         return 1 if f else 0
     if inp.get('family') == 'long separable chain':
         from fractions import Fraction
